@@ -363,6 +363,28 @@ class Scenario:
             frac = rng.choice([0.4, 0.6, 0.8, 1.0, 1.0])
         victims = [i for i in self.inst if rng.random() < frac]
         # "wholesale substitution" scenarios: every instance replaced by the other file / the other encoding
+        if self.profile == "c02" and rng.random() < 0.15:
+            # colluding servers: every (or all but one) instance carries the blocks and hash chains of ANOTHER file of
+            # the same shape, but the genuine URI extension block, so each forged share passes the UEB check and is
+            # rejected only at the share-hash / block-hash level - again and again, on the same validation trees
+            keep = rng.sample(self.inst, min(len(self.inst), rng.choice([0, 0, 1])))
+            for i in self.inst:
+                if i in keep:
+                    continue
+                sh = i[1]
+                o = self.other_file()
+                if sh not in o.shares or self.content[i] is None:
+                    continue
+                lay = self.layouts[sh]
+                ob = bytearray(o.shares[sh])
+                mine = self.content[i]
+                a = CONTAINER_HDR + lay.off["uri_extension"]
+                z = CONTAINER_HDR + lay.end
+                if len(ob) >= z and len(mine) >= z:
+                    ob[a:z] = mine[a:z]
+                    self.set_content(i, bytes(ob), "otherfile_genuine_ueb")
+            self.reset_everheld()
+            return
         if self.profile == "c02" and rng.random() < 0.3:
             which = rng.choice(["otherfile", "otherenc"])
             keep = rng.sample(self.inst, min(len(self.inst), rng.choice([0, 0, 1])))
